@@ -517,7 +517,7 @@ def jobs(tier):
         {"harness": "pick~flipped", "params": {"N": 1, "both": False, "punts": False}, "label": "pick~flipped", "role": "sens"},
     ]
     for f in (["oid"] if q else ["oid", "path"]):
-        out.append({"harness": "engine", "params": {"flavour": f, "nops": 1 if q else 2, "slots": 2 if q else 2}, "label": "engine-ageing/%s" % f})
+        out.append({"harness": "engine", "params": {"flavour": f, "nops": 1, "slots": 2 if q else 3}, "label": "engine-ageing/%s" % f})
     return out
 
 
